@@ -13,6 +13,7 @@ import (
 	"sort"
 	"sync"
 	"sync/atomic"
+	"syscall"
 	"testing"
 
 	"github.com/theparanoids/ysshra/verifh"
@@ -409,12 +410,24 @@ func TestVerifDaemon(t *testing.T) {
 	}
 	st := &zvdStats{ops: map[string]int{}}
 	sem := make(chan struct{}, par)
+	// instances waiting for the clock hold no worker slot but do hold their sockets: bound the instances alive at once
+	maxLive := 900
+	var rl syscall.Rlimit
+	if syscall.Getrlimit(syscall.RLIMIT_NOFILE, &rl) == nil && int(rl.Cur) > 0 && (int(rl.Cur)-200)/16 < maxLive {
+		maxLive = (int(rl.Cur) - 200) / 16
+	}
+	if maxLive < par {
+		maxLive = par
+	}
+	live := make(chan struct{}, maxLive)
 	var wg sync.WaitGroup
 	run := func(f func()) {
 		wg.Add(1)
+		live <- struct{}{}
 		sem <- struct{}{}
 		go func() {
 			defer wg.Done()
+			defer func() { <-live }()
 			defer func() { <-sem }()
 			f()
 		}()
